@@ -17,6 +17,21 @@ Definition len_bin_signed (x : Z) : Z := len_bin x + (if x <? 0 then 1 else 0).
 (* THE SPECIFICATION of input validation: reject exactly the values outside [0, 2^w) *)
 Definition reject_spec (v w : Z) : bool := negb (inrangeb v w).
 
+(* ------------------------------------------------------------------ step events
+   The observable events of one step() call.  Gen/StepOrder.v (regenerated from the source of
+   Simulation.step, FastSimulation.step, CompiledSimulation.step/run on every run) lists them in
+   source order for each simulator; Sim/Trace.v `exec_events` gives them their meaning. *)
+Inductive step_event :=
+| EvValidate            (* may raise PyrtlError; stores nothing into the simulator object *)
+| EvMutatingValidate    (* may raise PyrtlError AFTER having stored input values into the object *)
+| EvPrepare             (* self.value.update(...): inputs / register values made current *)
+| EvCompute             (* combinational evaluation of the cycle *)
+| EvPublish             (* inspect() sees the new values *)
+| EvCommit              (* next register values / memory writes become the state *)
+| EvTrace               (* tracer.add_step / add_fast_step: append what inspect() sees *)
+| EvTraceBuffers        (* CompiledSimulation: append the computed values; inspect reads the trace *)
+| EvAssert.             (* check_rtl_assertions: raises after everything before it took effect *)
+
 (* ------------------------------------------------------------------ text *)
 Definition text := list Z.
 
